@@ -1,6 +1,6 @@
 (* Proofs for C09 / C10 (Model/Exchange.v). *)
 From Coq Require Import ZArith List Bool Lia Znumtheory Zpow_facts.
-From TD Require Import Lib.GoSem Lib.Bytes Lib.RunLib Lib.BigIntSem Gen.DhCheck Model.DhCheck Proof.DhCheck Model.Exchange.
+From TD Require Import Lib.GoSem Lib.Bytes Lib.RunLib Lib.BigIntSem Gen.DhCheck Model.DhCheck Proof.DhCheck Model.ExchangeAnswer Proof.ExchangeAnswer Model.Exchange.
 Import ListNotations.
 Open Scope Z_scope.
 
@@ -186,6 +186,49 @@ Section ExchangeProofs.
       eexists; eexists. split; [reflexivity|].
       cbn [kr_key kr_id kr_salt]. repeat split.
       unfold ks. rewrite pow_pow_mod by lia. f_equal. f_equal. f_equal. lia.
+    Qed.
+
+    (* if the client's g^b falls outside the safety range (probability about 2^-63) the client
+       aborts at CheckDHParams: no key on the client, and the server never reaches its result *)
+    Theorem honest_abort (ccf : cconf pubkey) (cr : crand) (scf : sconf privkey) (sr : srand) a ga :
+      let pk := pub_of (sc_key privkey scf) in
+      let p := sr_p sr in
+      In pk (cc_keys pubkey ccf) ->
+      (forall k, In k (cc_keys pubkey ccf) -> fp k = fp pk -> k = pk) ->
+      sr_pq sr <= 2 ^ 63 -> factor (sr_pq sr) <> None ->
+      cc_dc pubkey ccf = sc_dc privkey scf ->
+      0 <= p -> check_dh prime server_g p = 0 ->
+      picka p (sr_as sr) = Some (a, ga) ->
+      ga_ok p (server_g ^ cr_b cr mod p) = false ->
+      exists c, (c = 43 \/ c = 45) /\ hrun ccf cr scf sr = ClientErr (EDHParams c).
+    Proof.
+      intros pk p Hin Huniq Hpq Hfac Hdc Hp0 Hdh Hpick Hgb. subst pk p.
+      set (p := sr_p sr) in *. set (pk := pub_of (sc_key privkey scf)) in *.
+      destruct (check_dh_0 _ _ _ Hdh) as (Hbl & Hgp & _).
+      assert (Hprange : 2 ^ 2047 <= p < 2 ^ 2048).
+      { apply (bitlen_range p 2048) in Hbl; [|lia]. rewrite Z.abs_eq in Hbl by exact Hp0. exact Hbl. }
+      destruct (pick_a_some _ _ _ _ Hpick) as (_ & Hga & Hgaok).
+      destruct (factor (sr_pq sr)) as [[fpp fq]|] eqn:Hf; [|contradiction].
+      unfold honest_run.
+      unfold client_step3, server_step2. cbn [rp_nonce rp_fps rp_pq rp_server_nonce].
+      rewrite neq_refl. fold pk. rewrite (select_trusted _ pk Hin Huniq).
+      assert ((sr_pq sr >? 2 ^ 63) = false) as -> by (apply gtb_false; exact Hpq).
+      rewrite Hf. cbv zeta.
+      unfold server_step5. cbn [rd_enc]. unfold pk at 1. rewrite rsa_ok. cbn [pi_dc pi_new_nonce].
+      rewrite Hdc, Z.eqb_refl. cbn [negb]. fold p. cbv zeta. rewrite Hgp. cbn [Z.eqb negb].
+      rewrite Hpick.
+      unfold client_step6. cbn [c3_server_nonce]. rewrite !neq_refl. rewrite ans_ok.
+      cbn [si_nonce si_server_nonce si_p si_g si_ga]. rewrite !neq_refl. cbv zeta.
+      rewrite Hdh. cbn [Z.eqb negb].
+      unfold ga_ok in Hgaok, Hgb. apply andb_true_iff in Hgaok as [G1 G2].
+      assert (G0 : in_range server_g 1 (p - 1) = true).
+      { unfold in_range, server_g. rewrite big_cmp_gt, big_cmp_lt. apply andb_true_iff. split; [reflexivity|].
+        apply Z.ltb_lt. pose proof (Z.pow_le_mono_r 2 3 2047 ltac:(lia) ltac:(lia)) as X. change (2 ^ 3) with 8 in X. lia. }
+      unfold check_dh_params. cbv zeta. rewrite pow_ok. rewrite G0, G1. cbn [negb].
+      destruct (in_range (server_g ^ cr_b cr mod p) 1 (p - 1)) eqn:B1; cbn [negb].
+      - rewrite G2. cbn [negb]. cbn [andb] in Hgb. rewrite Hgb. cbn [negb Z.eqb].
+        exists 45. split; [right; reflexivity|reflexivity].
+      - cbn [Z.eqb negb]. exists 43. split; [left; reflexivity|reflexivity].
     Qed.
   End Honest.
 
@@ -375,6 +418,29 @@ Section ExchangeProofs.
     right; right; left. intros H; apply Hn.
     exact (proj1 (check_dh_spec prime (si_g inner) (si_p inner) Hp) H).
   Qed.
+  Lemma not_ok_answers ccf cr m2 m5 m7 :
+    (m5 = SdhFail cipher2 \/ m5 = SdhOther cipher2) \/ (m7 = GenRetry \/ m7 = GenFail \/ m7 = GenOther) ->
+    is_ok (crun ccf cr m2 m5 m7) = false.
+  Proof.
+    intros [H|H]; [exact (move_sdh_fail ccf cr m2 m5 m7 H)|exact (move_gen_not_ok ccf cr m2 m5 m7 H)].
+  Qed.
+
+  (* with a sound AND complete primality oracle: anything but a 2048-bit safe prime with a generator
+     obeying the residue table is refused *)
+  Theorem unsafe_group_rejected_prime ccf cr m2 n sn enc inner m7 :
+    (forall x, prime x = true <-> Znumtheory.prime x) ->
+    ans_dec (cr_new_nonce cr) (rp_server_nonce m2) enc = Some inner ->
+    0 <= si_p inner ->
+    ~ (2 ^ 2047 <= si_p inner < 2 ^ 2048 /\ Znumtheory.prime (si_p inner) /\
+       Znumtheory.prime ((si_p inner - 1) / 2) /\ gp_table (si_g inner) (si_p inner)) ->
+    is_ok (crun ccf cr m2 (SdhOk cipher2 n sn enc) m7) = false.
+  Proof using pubkey cipher1 cipher2 cipher3 fp rsa_enc ans_dec cin_enc powmod prime factor nonce_hash1 key_id.
+    intros Ho Hd Hp Hn.
+    apply (move_inner ccf cr m2 (SdhOk cipher2 n sn enc) m7 n sn enc inner eq_refl Hd).
+    right; right; left. intros H; apply Hn.
+    exact (proj1 (check_dh_safe_prime prime (si_g inner) (si_p inner) Ho Hp) H).
+  Qed.
+
   (* C09_nonzero *)
   Theorem client_key_nonzero ccf cr m2 m5 m7 r :
     (forall g e p, powmod g e p = g ^ e mod p) ->
@@ -402,3 +468,54 @@ Section ExchangeProofs.
       change (256 ^ Z.of_nat 256) with (2 ^ 2048). lia.
   Qed.
 End ExchangeProofs.
+
+(* ================= C10 -> C11: the accepted answer is authenticated ================= *)
+(* Instantiate the abstract [ans_dec] by C11's model of crypto.DecryptExchangeAnswer under the
+   temporary keys derived from (new_nonce, server_nonce), followed by TL decoding.  Then "the
+   client completed" implies C11's guarantee for the delivered ciphertext: the decoded bytes are
+   non-empty, are the candidate plaintext[20 : len-i] for a padding length i < 16, and their SHA-1
+   is the 20-byte prefix of the AES-IGE plaintext under THOSE keys -- i.e. the peer produced a
+   ciphertext that verifies under keys only derivable from the client's secret new_nonce. *)
+Section AnswerAuthenticated.
+  Variables pubkey cipher1 cipher3 : Type.
+  Variable fp : pubkey -> Z.
+  Variable rsa_enc : pubkey -> pq_inner -> cipher1.
+  Variable cin_enc : nonce -> nonce -> cdh_inner -> cipher3.
+  Variable powmod : Z -> Z -> Z -> Z.
+  Variable prime : Z -> bool.
+  Variable factor : Z -> option (Z * Z).
+  Variable nonce_hash1 : nonce -> list Z -> list Z.
+  Variable key_id : list Z -> list Z.
+  Variable sha1 : list Z -> list Z.
+  Variable ige_dec : list Z -> list Z -> list Z -> list Z.
+  Variables tmp_key tmp_iv : nonce -> nonce -> list Z.      (* crypto.TempAESKeys *)
+  Variable decode : list Z -> option sdh_inner.             (* TL decoding of server_DH_inner_data *)
+
+  Definition ans_dec_c11 (nn sn : nonce) (c : list Z) : option sdh_inner :=
+    match decrypt_answer sha1 ige_dec c (tmp_key nn sn) (tmp_iv nn sn) with
+    | Ok d => decode d
+    | _ => None
+    end.
+
+  Theorem accepted_answer_authenticated ccf cr m2 m5 m7 r :
+    client_run pubkey cipher1 (list Z) cipher3 fp rsa_enc ans_dec_c11 cin_enc powmod prime factor nonce_hash1 key_id
+               ccf cr m2 m5 m7 = Ok r ->
+    exists n sn enc d i inner,
+      m5 = SdhOk (list Z) n sn enc /\
+      let nn := cr_new_nonce cr in
+      let sn2 := rp_server_nonce m2 in
+      let plain := ige_dec (tmp_key nn sn2) (tmp_iv nn sn2) enc in
+      d <> [] /\ (i < 16)%nat /\ d = ExchangeAnswer.cand plain i /\ sha1 d = firstn sha1_size plain /\
+      decode d = Some inner /\ si_nonce inner = cr_nonce cr /\ si_server_nonce inner = sn2.
+  Proof.
+    intros E. apply accept_only_if in E.
+    destruct E as (k_ & pp_ & pq_ & n5 & sn5 & enc5 & inner & n7_ & sn7_ & h7_ & E); cbv zeta in E.
+    destruct E as (_ & _ & _ & _ & _ & _ & Hm5 & _ & _ & Hdec & Hn & Hs & _).
+    unfold ans_dec_c11 in Hdec.
+    pose proof (decrypt_ok_or_err sha1 ige_dec enc5 (tmp_key (cr_new_nonce cr) (rp_server_nonce m2))
+                                  (tmp_iv (cr_new_nonce cr) (rp_server_nonce m2))) as C11.
+    destruct (decrypt_answer sha1 ige_dec enc5 _ _) as [d| |]; try discriminate.
+    cbv zeta in C11. destruct C11 as (Hne & i & Hi & _ & Hd & Hsha).
+    exists n5, sn5, enc5, d, i, inner. cbv zeta. repeat split; auto.
+  Qed.
+End AnswerAuthenticated.
